@@ -104,7 +104,8 @@ def tables_and_cursor(rep, idx, spec, table, obj, named):
                   f"inserted range is {ir.show(R)[:100]}")
     else:
         # the placement helper was split / merged: the range is validated in the flattened view (compute_range)
-        rep.form(R[0] == 'call' and R[1] == ('name', 'range'), "C02.5", site, "the inserted range is the validated range (flattened view)",
+        rep.form(R[0] == 'call' and R[1] in (('name', 'range'), c.parse("self._compute_addr_range")), "C02.5", site,
+                 "the inserted range is the validated range (flattened view)",
                  f"inserted range is {ir.show(R)[:100]}")
     st = c.stores.get(ir.show(c.parse(f"self.{table}[id({obj})]")))
     ok = st is not None and st[0][0] == 'tuple' and len(st[0][1]) == 3 and st[0][1][0] == ('name', obj) and st[0][1][2] == R
@@ -578,7 +579,7 @@ def legal_placements(rep, idx, rule):
         span = any(x == ('attr', ('name', 'window'), 'addr_width') for x in ir.walk(a))
         if span and a[0] == 'call' and a[1] == ('name', 'isinstance') and len(a[2]) == 2 and a[2][1] == ('name', 'int'):
             return True
-        if span and a[0] == 'cmp' and a[1] == '<' and a[3] == ('const', 0):
+        if span and a[0] == 'cmp' and a[1] == '<' and (a[3] == ('const', 0) or a[2] == ('const', -1)):
             return True
         return False
     try:
